@@ -7,6 +7,8 @@
 import MoreExec.Model.Throttle
 import MoreExec.Model.Retry
 import MoreExec.Model.Poll
+import MoreExec.Model.CancelOnShutdown
+import MoreExec.Model.Shutdown
 
 namespace Driver.Replay
 
@@ -152,5 +154,58 @@ def run (hdr : List String) (lines : Array String) : String :=
   let cf := match hdr with | _ :: _ :: _ :: c :: _ => c = "1" | _ => false
   runActs step parseAct describe (init cf) lines
 end Poll
+
+namespace CoS
+open MoreExec.CoS
+
+def parseAct : List String → Option Act
+  | ["subEnter", t] => some (.subEnter (nat! t))
+  | ["subRefuse", t] => some (.subRefuse (nat! t))
+  | ["subAdd", t, f] => some (.subAdd (nat! t) (nat! f))
+  | ["subExit", t] => some (.subExit (nat! t))
+  | ["fdone", f] => some (.fdone (nat! f))
+  | ["discard", f] => some (.discard (nat! f))
+  | ["sdFlip", t] => some (.sdFlip (nat! t))
+  | ["sdNoop", t] => some (.sdNoop (nat! t))
+  | ["sdSnap", t] => some (.sdSnap (nat! t))
+  | ["sdCancel", t, f] => some (.sdCancel (nat! t) (nat! f))
+  | ["sdDelegate", t] => some (.sdDelegate (nat! t))
+  | ["sdRet", t] => some (.sdRet (nat! t))
+  | _ => none
+
+def describe (s : St) : String :=
+  s!"gate={s.gate} flag={s.flag} tracked={s.tracked} doneF={s.doneF} shutter={repr s.shutter} cancels={s.cancels} delegateShut={s.delegateShut} returned={s.returned}"
+
+def run (lines : Array String) : String := runActs step parseAct describe init lines
+end CoS
+
+namespace Shutdown
+open MoreExec.Shutdown
+
+def parseAct : List String → Option Act
+  | ["subEnter", t] => some (.subEnter (nat! t))
+  | ["subRefuse", t] => some (.subRefuse (nat! t))
+  | ["subExit", t] => some (.subExit (nat! t))
+  | ["sdFlip", t, w] => some (.sdFlip (nat! t) (w = "1"))
+  | ["sdNoop", t] => some (.sdNoop (nat! t))
+  | ["sdSet", t] => some (.sdSet (nat! t))
+  | ["sdDelegate", t] => some (.sdDelegate (nat! t))
+  | ["sdJoined", t] => some (.sdJoined (nat! t))
+  | ["sdRet", t] => some (.sdRet (nat! t))
+  | ["setE"] => some .setE
+  | ["wTop"] => some .wTop
+  | ["wWork"] => some .wWork
+  | ["wWait"] => some .wWait
+  | ["wWake"] => some .wWake
+  | ["wClear"] => some .wClear
+  | _ => none
+
+def describe (s : St) : String :=
+  s!"gate={s.gate} flag={s.flag} evt={s.evt} wpc={repr s.wpc} shutter={repr s.shutter} delegateCalls={s.delegateCalls} returned={s.returned}"
+
+def run (hdr : List String) (lines : Array String) : String :=
+  let hw := match hdr with | _ :: _ :: _ :: c :: _ => c = "1" | _ => true
+  runActs step parseAct describe (init hw) lines
+end Shutdown
 
 end Driver.Replay
